@@ -748,25 +748,31 @@ class MembersType(Type):
         addition_encoders = []
         number_of_precence_bits = 0
 
-        try:
-            for addition in self.additions:
-                presence_bits <<= 1
-                addition_encoder = encoder.__class__()
-                number_of_precence_bits += 1
+        for addition in self.additions:
+            presence_bits <<= 1
+            addition_encoder = encoder.__class__()
+            number_of_precence_bits += 1
 
-                if isinstance(addition, AdditionGroup):
-                    addition.encode_addition_group(data, addition_encoder)
-                else:
-                    self.encode_member(addition,
-                                       data,
-                                       addition_encoder,
-                                       encode_default=True)
+            # An addition (group) that is not part of the value is
+            # absent, as in a value of an older version. Errors in
+            # additions that are given are not hidden.
+            if isinstance(addition, AdditionGroup):
+                if not any(member.name in data
+                           for member in addition.root_members):
+                    continue
 
-                if addition_encoder.number_of_bits > 0 or addition.name in data:
-                    addition_encoders.append(addition_encoder)
-                    presence_bits |= 1
-        except EncodeError:
-            pass
+                addition.encode_addition_group(data, addition_encoder)
+            elif addition.name in data:
+                self.encode_member(addition,
+                                   data,
+                                   addition_encoder,
+                                   encode_default=True)
+            else:
+                continue
+
+            if addition_encoder.number_of_bits > 0 or addition.name in data:
+                addition_encoders.append(addition_encoder)
+                presence_bits |= 1
 
         # Return false if no extension additions are present.
         if not addition_encoders:
